@@ -38,6 +38,8 @@ import (
 	"github.com/plgd-dev/go-coap/v3/net/responsewriter"
 	"github.com/plgd-dev/go-coap/v3/options/config"
 	pkgErrors "github.com/plgd-dev/go-coap/v3/pkg/errors"
+	tcpclient "github.com/plgd-dev/go-coap/v3/tcp/client"
+	tcpcoder "github.com/plgd-dev/go-coap/v3/tcp/coder"
 	"github.com/plgd-dev/go-coap/v3/udp/client"
 	"github.com/plgd-dev/go-coap/v3/udp/coder"
 )
@@ -67,6 +69,7 @@ type c8Op struct {
 type c8Script struct {
 	wire bool
 	bw   bool
+	tcp  bool // wire over a tcp/client.Conn on a net.Pipe instead of the datagram connection
 	ops  []c8Op
 }
 
@@ -77,6 +80,9 @@ func (s c8Script) String() string {
 		m = "w"
 		if s.bw {
 			m = "b"
+		}
+		if s.tcp {
+			m = "t"
 		}
 	}
 	sb.WriteString("hist " + m)
@@ -113,6 +119,7 @@ func parseC8Script(s string) (c8Script, error) {
 	}
 	sc.wire = f[1] != "d"
 	sc.bw = f[1] == "b"
+	sc.tcp = f[1] == "t"
 	for _, w := range f[2:] {
 		p := strings.Split(w[1:], "/")
 		atoi := func(x string) int { v, _ := strconv.Atoi(x); return v }
@@ -263,9 +270,14 @@ type c8Run struct {
 	tokq      [][]byte
 	nextMid   int32
 	// wire
+	out  chan []byte // what the connection wrote (datagrams / stream frames)
 	sess *c8Session
 	cc   *client.Conn
 	hw   *observation.Handler[*client.Conn]
+	// wire over TCP
+	tcc  *tcpclient.Conn
+	ht   *observation.Handler[*tcpclient.Conn]
+	peer net.Conn
 	// direct
 	fake       *c8Fake
 	hd         *observation.Handler[*c8Fake]
@@ -330,19 +342,15 @@ func (r *c8Run) setup() {
 			})
 		return
 	}
+	if r.sc.tcp {
+		r.setupTCP()
+		return
+	}
 	r.sess = newC8Session()
+	r.out = r.sess.out
 	cfg := client.DefaultConfig
 	cfg.Handler = func(_ *responsewriter.ResponseWriter[*client.Conn], m *pool.Message) { r.logNext(m) }
-	cfg.GetToken = func() (message.Token, error) {
-		r.mu.Lock()
-		defer r.mu.Unlock()
-		if len(r.tokq) == 0 {
-			return nil, errors.New("no token queued")
-		}
-		t := r.tokq[0]
-		r.tokq = r.tokq[1:]
-		return message.Token(append([]byte(nil), t...)), nil
-	}
+	cfg.GetToken = r.getToken
 	cfg.Errors = func(error) {}
 	cfg.LimitClientParallelRequests = 0
 	cfg.LimitClientEndpointParallelRequests = 0
@@ -365,6 +373,103 @@ func (r *c8Run) setup() {
 	r.hw = *(**observation.Handler[*client.Conn])(unsafe.Pointer(f.UnsafeAddr()))
 }
 
+func (r *c8Run) getToken() (message.Token, error) {
+	r.mu.Lock()
+	defer r.mu.Unlock()
+	if len(r.tokq) == 0 {
+		return nil, errors.New("no token queued")
+	}
+	t := r.tokq[0]
+	r.tokq = r.tokq[1:]
+	return message.Token(append([]byte(nil), t...)), nil
+}
+
+// setupTCP: a tcp/client.Conn over one end of a net.Pipe; a goroutine splits what the
+// connection writes into frames. tcp/client ignores Config.ProcessReceivedMessage, so the
+// private field is set directly to obtain the "message processed" witness.
+func (r *c8Run) setupTCP() {
+	c1, c2 := net.Pipe()
+	r.peer = c2
+	r.out = make(chan []byte, 4096)
+	go func() {
+		var buf []byte
+		tmp := make([]byte, 4096)
+		for {
+			n, err := c2.Read(tmp)
+			buf = append(buf, tmp[:n]...)
+			for {
+				var h tcpcoder.MessageHeader
+				if _, e := tcpcoder.DefaultCoder.DecodeHeader(buf, &h); e != nil || uint32(len(buf)) < h.MessageLength {
+					break
+				}
+				r.out <- append([]byte(nil), buf[:h.MessageLength]...)
+				buf = buf[h.MessageLength:]
+			}
+			if err != nil {
+				return
+			}
+		}
+	}()
+	cfg := tcpclient.DefaultConfig
+	cfg.Handler = func(_ *responsewriter.ResponseWriter[*tcpclient.Conn], m *pool.Message) { r.logNext(m) }
+	cfg.GetToken = r.getToken
+	cfg.Errors = func(error) {}
+	cfg.LimitClientParallelRequests = 0
+	cfg.LimitClientEndpointParallelRequests = 0
+	cfg.MessagePool = pool.New(0, 0)
+	cfg.DisableTCPSignalMessageCSM = true
+	cfg.DisablePeerTCPSignalMessageCSMs = true
+	r.tcc = tcpclient.NewConnWithOpts(coapNet.NewConn(c1), &cfg)
+	v := reflect.ValueOf(r.tcc).Elem()
+	r.ht = *(**observation.Handler[*tcpclient.Conn])(unsafe.Pointer(v.FieldByName("observationHandler").UnsafeAddr()))
+	pf := (*func(*pool.Message, *tcpclient.Conn, tcpclient.HandlerFunc))(unsafe.Pointer(v.FieldByName("processReceivedMessage").UnsafeAddr()))
+	*pf = func(req *pool.Message, cc *tcpclient.Conn, h tcpclient.HandlerFunc) {
+		cc.ProcessReceivedMessageWithHandler(req, h)
+		r.processed <- struct{}{}
+	}
+	go func() { _ = r.tcc.Run() }()
+}
+
+func (r *c8Run) decode(d []byte) (*pool.Message, error) {
+	req := pool.NewMessage(context.Background())
+	var err error
+	if r.sc.tcp {
+		_, err = req.UnmarshalWithDecoder(tcpcoder.DefaultCoder, d)
+	} else {
+		_, err = req.UnmarshalWithDecoder(coder.DefaultCoder, d)
+	}
+	return req, err
+}
+
+// frame: the message as a datagram or as a stream frame (an empty ACK does not exist on a stream)
+func (r *c8Run) frame(typ message.Type, mid int32, tok []byte, code int, hasObs bool, obs []byte, tag int, withTag bool) []byte {
+	if !r.sc.tcp {
+		return c8Datagram(typ, mid, tok, code, hasObs, obs, tag, withTag)
+	}
+	if code == 0 {
+		return nil
+	}
+	m := message.Message{Code: codes.Code(code)}
+	if len(tok) > 0 {
+		m.Token = tok
+	}
+	if tag%3 == 0 && withTag {
+		m.Options = append(m.Options, message.Option{ID: message.ETag, Value: []byte{byte(tag), byte(tag >> 8), 0x5a}[:1+tag%3+tag%2]})
+	}
+	if hasObs {
+		m.Options = append(m.Options, message.Option{ID: message.Observe, Value: obs})
+	}
+	if withTag {
+		m.Payload = []byte{byte(tag >> 8), byte(tag)}
+	}
+	buf := make([]byte, 256)
+	n, err := tcpcoder.DefaultCoder.Encode(m, buf)
+	if err != nil {
+		panic(err)
+	}
+	return buf[:n]
+}
+
 func (r *c8Run) teardown() {
 	for _, g := range r.regs {
 		g.cancel()
@@ -381,11 +486,19 @@ func (r *c8Run) teardown() {
 	if r.sess != nil {
 		_ = r.sess.Close()
 	}
+	if r.tcc != nil {
+		_ = r.tcc.Close()
+		_ = r.peer.Close()
+	}
 }
 
 // lookup: is the token's key in the table, and does that observation still wait for its first response
 func (r *c8Run) lookup(tok []byte) (bool, bool) {
 	k := message.Token(tok).Hash()
+	if r.sc.tcp {
+		o, ok := r.ht.GetObservation(k)
+		return ok, ok && o.VerifWaiting()
+	}
 	if r.sc.wire {
 		o, ok := r.hw.GetObservation(k)
 		return ok, ok && o.VerifWaiting()
@@ -405,7 +518,7 @@ func (r *c8Run) waitProcessed() {
 func (r *c8Run) drain() {
 	for {
 		select {
-		case <-r.sess.out:
+		case <-r.out:
 		default:
 			return
 		}
@@ -435,6 +548,18 @@ func c8Datagram(typ message.Type, mid int32, tok []byte, code int, hasObs bool, 
 }
 
 func (r *c8Run) inject(data []byte) {
+	if data == nil {
+		return
+	}
+	if r.sc.tcp {
+		_ = r.peer.SetWriteDeadline(time.Now().Add(c8Timeout))
+		if _, err := r.peer.Write(data); err != nil {
+			r.bad = "the connection does not read: " + err.Error()
+			return
+		}
+		r.waitProcessed()
+		return
+	}
 	if err := r.cc.Process(nil, data); err != nil {
 		r.bad = "Process refused a datagram: " + err.Error()
 		return
@@ -490,7 +615,13 @@ func (r *c8Run) doReg(op c8Op) []string {
 					g.done <- c8RegRes{panic: true}
 				}
 			}()
-			o, err := r.cc.Observe(ctx, "/r"+strconv.Itoa(id), cb)
+			var o interface{}
+			var err error
+			if r.sc.tcp {
+				o, err = r.tcc.Observe(ctx, "/r"+strconv.Itoa(id), cb)
+			} else {
+				o, err = r.cc.Observe(ctx, "/r"+strconv.Itoa(id), cb)
+			}
 			var co c8Obs
 			if err == nil {
 				co, _ = o.(c8Obs)
@@ -498,9 +629,9 @@ func (r *c8Run) doReg(op c8Op) []string {
 			g.done <- c8RegRes{obs: co, err: err}
 		}()
 		select {
-		case d := <-r.sess.out:
-			req := pool.NewMessage(context.Background())
-			if _, err := req.UnmarshalWithDecoder(coder.DefaultCoder, d); err != nil {
+		case d := <-r.out:
+			req, err := r.decode(d)
+			if err != nil {
 				r.bad = "request does not decode"
 				return nil
 			}
@@ -508,11 +639,11 @@ func (r *c8Run) doReg(op c8Op) []string {
 			if err != nil || ob != 0 || !bytes.Equal(req.Token(), op.tok) || req.Code() != codes.GET {
 				r.bad = "registration request is not GET+Observe:0 with the given token"
 			}
-			if op.piggy {
+			if op.piggy && !r.sc.tcp {
 				g.ackMid = req.MessageID()
 				g.waitAck = true
 			} else {
-				r.inject(c8Datagram(message.Acknowledgement, req.MessageID(), nil, 0, false, nil, 0, false))
+				r.inject(r.frame(message.Acknowledgement, req.MessageID(), nil, 0, false, nil, 0, false))
 			}
 			return nil
 		case res := <-g.done:
@@ -574,10 +705,10 @@ func (r *c8Run) doMsg(op c8Op) []string {
 			if bytes.Equal(g.tok, op.tok) && typ != message.Acknowledgement {
 				typ, mid = message.Acknowledgement, g.ackMid
 			} else {
-				r.inject(c8Datagram(message.Acknowledgement, g.ackMid, nil, 0, false, nil, 0, false))
+				r.inject(r.frame(message.Acknowledgement, g.ackMid, nil, 0, false, nil, 0, false))
 			}
 		}
-		r.inject(c8Datagram(typ, mid, op.tok, op.code, op.hasObs, op.obs, op.tag, true))
+		r.inject(r.frame(typ, mid, op.tok, op.code, op.hasObs, op.obs, op.tag, true))
 		r.drain()
 	} else {
 		m := r.fake.pl.AcquireMessage(context.Background())
@@ -652,9 +783,9 @@ func (r *c8Run) doCancel(op c8Op) ([]string, bool) {
 	}()
 	var err error
 	select {
-	case d := <-r.sess.out:
-		req := pool.NewMessage(context.Background())
-		if _, e := req.UnmarshalWithDecoder(coder.DefaultCoder, d); e != nil {
+	case d := <-r.out:
+		req, e := r.decode(d)
+		if e != nil {
 			r.bad = "deregistration does not decode"
 			return nil, true
 		}
@@ -662,7 +793,7 @@ func (r *c8Run) doCancel(op c8Op) ([]string, bool) {
 		if e != nil || ob != 1 || !bytes.Equal(req.Token(), g.tok) || req.Code() != codes.GET {
 			r.bad = "deregistration is not GET+Observe:1 with the observation's token"
 		}
-		r.inject(c8Datagram(message.Acknowledgement, req.MessageID(), g.tok, op.code, false, nil, 999, true))
+		r.inject(r.frame(message.Acknowledgement, req.MessageID(), g.tok, op.code, false, nil, 999, true))
 		select {
 		case err = <-cdone:
 		case <-time.After(c8Timeout):
@@ -751,7 +882,12 @@ func runC8Script(sc c8Script) (string, []string, bool, time.Duration, string) {
 	var lm, pend []string
 	for id, g := range r.regs {
 		present := false
-		if sc.wire {
+		if sc.tcp {
+			if m, ok := r.tcc.GetObservationRequest(g.tok); ok {
+				present = true
+				r.tcc.ReleaseMessage(m)
+			}
+		} else if sc.wire {
 			if m, ok := r.cc.GetObservationRequest(g.tok); ok {
 				present = true
 				r.cc.ReleaseMessage(m)
@@ -785,6 +921,9 @@ func runC8Script(sc c8Script) (string, []string, bool, time.Duration, string) {
 		mode = "wire"
 		if sc.bw {
 			mode = "wire+blockwise"
+		}
+		if sc.tcp {
+			mode = "tcp"
 		}
 	}
 	feats = append(feats, mode)
@@ -1300,15 +1439,15 @@ func runC08(a runArgs) error {
 
 	c8Grid(e, rng, thorough)
 
-	modes := []c8Script{{wire: true}, {wire: true, bw: true}, {wire: false}}
+	modes := []c8Script{{wire: true}, {wire: true, bw: true}, {wire: false}, {wire: true, tcp: true}}
 	all := func(ops []c8Op, fam string) {
 		for _, m := range modes {
-			addScript(c8Script{wire: m.wire, bw: m.bw, ops: ops}, fam)
+			addScript(c8Script{wire: m.wire, bw: m.bw, tcp: m.tcp, ops: ops}, fam)
 		}
 	}
 	pick := func(ops []c8Op, fam string, i int) {
-		m := modes[i%3]
-		addScript(c8Script{wire: m.wire, bw: m.bw, ops: ops}, fam)
+		m := modes[i%4]
+		addScript(c8Script{wire: m.wire, bw: m.bw, tcp: m.tcp, ops: ops}, fam)
 	}
 	all(c8GenScratch(), "scratch-scenario")
 	for _, code := range []int{69, 67, 132, 160, 65, 68, 95, 128, 64} {
